@@ -16,7 +16,9 @@ RULE = ("Seeded histories on one SNMPv3 client (3-25 steps): request (get, multi
         "restart of the only node with durable state), administrative forward step of the agent clock, slow agent; all three "
         "security levels; separately faults of the FIRST discovery exchange (foreign msgID, no bindings, wrong PDU type, reply lost); "
         "after a lost or refused reply the history goes on: the next request must start with a discovery probe again and from "
-        "then on everything holds as for a fresh client. Oracle: first datagram "
+        "then on everything holds as for a fresh client (a client that repeats a lost probe by itself is equally fine; a lost reply "
+        "may only surface as Timeout); the client may be switched to SNMPv2c credentials and back (configure), immediately or "
+        "after 200 s / 1 h. Oracle: first datagram "
         "is the RFC 3414 section 4 probe, later requests carry the discovered engine id (security and default context engine "
         "id); a foreign-msgID reply is refused and nothing with credentials follows; in a history without discontinuity the "
         "agent never answers notInTimeWindow and every request returns the model result; after a reboot/step requests may fail "
@@ -30,7 +32,7 @@ ASSUMPTIONS = [
     "on purpose); a request is required to succeed only if the drift accumulated since the client last heard from the agent "
     "is below 140 s - beyond that no client can be in time and bounded recovery is required instead",
 ]
-PROBES = ["rediscovery_after_failed_discovery", "disco_lost", "passes_150s", "passes_days", "reboot", "clock_step", "slow_agent", "recovered_after_discontinuity",
+PROBES = ["other_family_and_back", "rediscovery_after_failed_discovery", "disco_lost", "passes_150s", "passes_days", "reboot", "clock_step", "slow_agent", "recovered_after_discontinuity",
           "failed_right_after_discontinuity", "disco_foreign_msgid", "disco_no_bindings", "disco_wrong_pdu", "level_auth",
           "level_priv", "configured_context_engine", "drift_within_window", "drift_beyond_window", "slow_agent_clock",
           "fast_agent_clock", "discovery_without_timing", "old_response_replayed"]
@@ -68,6 +70,12 @@ def plan_for(tier: str, seed: int, i: int) -> dict:
             steps.append(["replay"])      # an on-path attacker answers the next request with an OLD authentic response
         else:
             steps.append(["slow", rng.choice([1, 2, 3])])
+    # the client is switched to another credential family and back (configure): whatever it keeps or forgets about the
+    # engine, the SNMPv3 requests that follow must be in time like any other
+    trng = rng_for(seed, ID, tier + ":trip", i)
+    if trng.random() < 0.15:
+        for _ in range(trng.randrange(1, 3)):
+            steps.insert(trng.randrange(1, len(steps) + 1), ["roundtrip", trng.choice([0, 0, 200, 3600])])
     steps.append(["req", "get"])
     disco_fault = rng.choice(DISCO_FAULTS) if rng.random() < 0.12 else None
     return {"prop": ID, "proto": proto, "steps": steps, "disco_fault": disco_fault,
@@ -208,6 +216,21 @@ def execute(plan: dict) -> dict:
             replay_armed[0] = bool(captured)
             classes.append("replay")
             continue
+        if kind == "roundtrip":
+            from puresnmp.credentials import V2C as _V2C
+            from ..world import make_credentials
+            client.configure(credentials=_V2C("public"))
+            if step[1]:
+                async def nap2(d: int = step[1]) -> None:
+                    await asyncio.sleep(d)
+                w.run(nap2())
+                time_between = time_between or nreq > 0
+            client.configure(credentials=make_credentials(proto))
+            if plan.get("disco_hides_timing") and not plan.get("disco_fault"):
+                pending = level > 0      # a new discovery that does not disclose the clock: one request to synchronise again
+            classes.append("v2c-and-back(%ds)" % step[1])
+            probes["other_family_and_back"] = 1
+            continue
         if kind == "slow":
             slow["s"] = step[1]
             classes.append("slow%d" % step[1])
@@ -267,15 +290,24 @@ def execute(plan: dict) -> dict:
         if fault and not fault_done:
             fault_done = True
             probes["disco_" + fault] = 1
-            if fault in ("foreign_msgid", "no_bindings", "lost"):
+            if fault in ("foreign_msgid", "no_bindings"):
                 if exc is None:
                     fail("bad-discovery-accepted", "discovery reply with %s was accepted" % fault)
                 if any(not r.get("discovery") for r in new):
                     fail("request-after-bad-discovery", "a request with credentials followed the failed discovery exchange")
-            if fault in ("foreign_msgid", "lost"):
+            if fault == "lost" and exc is not None:
+                # nothing arrived: the only thing the client can know is that its probe timed out
+                if excname != "Timeout":
+                    fail("raised:" + excname, "the reply to the first discovery probe was lost; the request ended in %s: %s" % (excname, exc))
+                if any(not r.get("discovery") for r in new):
+                    fail("request-after-bad-discovery", "a request with credentials followed the failed discovery exchange")
+            if fault == "foreign_msgid" or (fault == "lost" and exc is not None):
                 rediscover = True
                 continue
-            break  # a reply without bindings / of the wrong type may or may not be taken as discovery: history not judged
+            if fault == "lost":
+                pass      # the client repeated the probe by itself and went on: judged like any other request below
+            else:
+                break  # a reply without bindings / of the wrong type may or may not be taken as discovery: history not judged
         for r in new:
             if r.get("discovery") or r["msg"] is None or r["msg"].get("sec") is None:
                 continue
